@@ -286,6 +286,38 @@ func (w *world) ethTx(snd *account, nonce uint64, route string, claimedFrom comm
 		to = precompileAddr
 		packed := append(append([]byte(nil), claimedFrom.Bytes()...), txdata...)
 		data = append(common.LeftPadBytes(big.NewInt(int64(len(packed))).Bytes(), 32), packed...)
+	case "static":
+		// a contract of the submitter's making (the init code of a creation transaction) STATICCALLs 0xfe with the payload the
+		// Admin contract would hand over - with a sender of its choosing - and reverts when the call is refused
+		packed := append(append([]byte(nil), claimedFrom.Bytes()...), txdata...)
+		payload := append(common.LeftPadBytes(big.NewInt(int64(len(packed))).Bytes(), 32), packed...)
+		n := len(payload)
+		code := []byte{
+			0x61, byte(n >> 8), byte(n), // PUSH2 size
+			0x61, 0, 0, // PUSH2 offset of the payload in the code (patched below)
+			0x60, 0x00, 0x39, // PUSH1 0; CODECOPY
+			0x60, 0x00, 0x60, 0x00, // out size, out offset
+			0x61, byte(n >> 8), byte(n), // in size
+			0x60, 0x00, // in offset
+			0x60, 0xfe, // address
+			0x5a, 0xfa, // GAS; STATICCALL
+			0x60, 0, 0x57, // PUSH1 ok; JUMPI (patched below)
+			0x60, 0x00, 0x60, 0x00, 0xfd, // REVERT(0,0)
+			0x5b, 0x00, // ok: JUMPDEST; STOP
+		}
+		code[23] = byte(len(code) - 2)
+		code[4], code[5] = byte(len(code)>>8), byte(len(code))
+		initCode := append(code, payload...)
+		tx := etypes.NewContractCreation(nonce, big.NewInt(0), 3000000, big.NewInt(0), initCode)
+		signed, err := etypes.SignTx(tx, etypes.HomesteadSigner{}, snd.key)
+		if err != nil {
+			panic(err)
+		}
+		raw, err := rlp.EncodeToBytes(signed)
+		if err != nil {
+			panic(err)
+		}
+		return raw
 	default:
 		panic("route " + route)
 	}
@@ -527,7 +559,7 @@ func (rn *runner) exec(si int, st mbt.Step, rid int, wantOut string) bool {
 	// process-wide precompile object (Gate at the entry of Run), another goroutine serves a read-only contract
 	// query carrying the same transaction bytes on this replica, to completion.
 	racing := (*txPlan)(nil)
-	if rn.raceAt > 0 && rn.raceAt <= len(bb.plans) && bb.plans[rn.raceAt-1].route != "resend" {
+	if rn.raceAt > 0 && rn.raceAt <= len(bb.plans) && bb.plans[rn.raceAt-1].route != "resend" && bb.plans[rn.raceAt-1].route != "static" {
 		racing = bb.plans[rn.raceAt-1]
 		target, hits, served := 0, 0, false
 		for _, pl := range bb.plans[:rn.raceAt] {
